@@ -109,7 +109,7 @@ def acceptLeaf (k : Kind) (values : List Nat) (d : Bytes) : Except Err Unit :=
   | .unsigned64 => if d.length = 8 then .ok () else .error (.lib "DataTypeError")
   | .enumerated => if d.length = 4 ∧ values.contains (fromBE d) then .ok () else .error (.lib "AVPAttributeValueError")
   | .address => if Address.fromBytesOk d then .ok () else .error (.lib "DataTypeError")
-  | .diameterURI => .error .unmodelled
+  | .diameterURI => if Uri.acceptsBytes d == some true then .ok () else .error (.lib "DataTypeError")
   | .grouped => .error .unmodelled
   | .unmodelled => .error .unmodelled
 
